@@ -8,7 +8,7 @@ From Coq Require Import Reals.
 From Flocq Require Import Core.Core IEEE754.BinarySingleNaN.
 From RJ Require Model.Base64 Proofs.Base64_arith_proofs Proofs.Base64_proofs.
 From RJ Require Model.Utf8Codec Proofs.Utf8Codec_proofs.
-From RJ Require Model.JsonParse Proofs.JsonParse_proofs Proofs.JsonString_proofs.
+From RJ Require Model.JsonParse Proofs.JsonParse_proofs Proofs.JsonString_proofs Proofs.JsonRoundtrip_proofs.
 From RJ Require Model.Esc Proofs.Esc_proofs.
 Local Open Scope N_scope.
 
@@ -197,6 +197,40 @@ Theorem C20_json_string_roundtrip : forall s,
      Ok (Some (s, {| lx_line := line; lx_col := col'; lx_rem := rest |}))).
 Proof. intros s. split; [apply JsonString_proofs.parse_print_string | apply JsonString_proofs.lex_string_print_string]. Qed.
 
+(* round trip with the minimal printer: for every printable value (null, booleans, naturals
+   given by their decimal digits, strings, arrays, objects with pairwise distinct keys, nested
+   to any depth) the parser reads the printed text back as that value *)
+Theorem C20_json_roundtrip : forall p, JsonRoundtrip_proofs.wf p ->
+  parse_json (JsonRoundtrip_proofs.print p) = Ok (JsonRoundtrip_proofs.embed p).
+Proof. exact JsonRoundtrip_proofs.parse_print. Qed.
+
+(* and anything but whitespace after a complete document is rejected (ExpectedEof) *)
+Theorem C20_json_rejects_trailing_any : forall p c t, JsonRoundtrip_proofs.wf p -> is_ws c = false ->
+  JsonRoundtrip_proofs.follow_ok p (c :: t) ->
+  exists line col, parse_json (JsonRoundtrip_proofs.print p ++ c :: t) =
+                   Err {| je_line := line; je_col := col; je_kind := EExpectedEof |}.
+Proof. exact JsonRoundtrip_proofs.parse_print_trailing. Qed.
+
+Example C20_json_roundtrip_nonvacuous :
+  let p := JsonRoundtrip_proofs.PObj
+             [([97], JsonRoundtrip_proofs.PArr [JsonRoundtrip_proofs.PNat [49; 50]; JsonRoundtrip_proofs.PStr [34; 10; 233];
+                                               JsonRoundtrip_proofs.PNull; JsonRoundtrip_proofs.PArr []]);
+              ([98], JsonRoundtrip_proofs.PObj [([], JsonRoundtrip_proofs.PBool true)]);
+              ([99], JsonRoundtrip_proofs.PNat [48])] in
+  JsonRoundtrip_proofs.wf p /\
+  JsonRoundtrip_proofs.print p =
+    [123; 34; 97; 34; 58; 91; 49; 50; 44; 34; 92; 34; 92; 117; 48; 48; 48; 97; 233; 34; 44; 110; 117; 108; 108; 44; 91; 93; 93; 44;
+     34; 98; 34; 58; 123; 34; 34; 58; 116; 114; 117; 101; 125; 44; 34; 99; 34; 58; 48; 125] /\
+  JsonRoundtrip_proofs.follow_ok p [120].
+Proof.
+  cbv zeta. split; [|split; [vm_compute; reflexivity|exact I]].
+  cbn [JsonRoundtrip_proofs.wf map fst]. split.
+  - repeat constructor; cbn; intuition discriminate.
+  - repeat split; try (left; reflexivity); try (vm_compute; reflexivity).
+    + right. exists 49, [50]. split; [reflexivity|]. split; [reflexivity|]. repeat constructor.
+    + repeat constructor. intros [].
+Qed.
+
 Example C20_json_nonvacuous :
   (* {"a":1,"a":2} *)
   parse_json [123; 34; 97; 34; 58; 49; 44; 34; 97; 34; 58; 50; 125] =
@@ -274,6 +308,9 @@ Print Assumptions C20_json_rejects_leading_zero.
 Print Assumptions C20_json_rejects_trailing.
 Print Assumptions C20_json_ws_exact.
 Print Assumptions C20_json_string_roundtrip.
+Print Assumptions C20_json_roundtrip.
+Print Assumptions C20_json_rejects_trailing_any.
+Print Assumptions C20_json_roundtrip_nonvacuous.
 Print Assumptions C20_json_nonvacuous.
 Print Assumptions C20_bash_unescape_escape.
 Print Assumptions C20_xml_escape_no_specials.
